@@ -13,11 +13,7 @@ import gen_bases as _gb
 GEN = [_gb.gen_bases]            # the model reads mp_bases[].chars_per_bit_exactly and the digit value table
 LEAN_MODULES = ["MpirProofs.Props.C13_str"]
 THEOREMS = ["Mpir.MpfStr." + t for t in """
-    parse_sound parse_complete parse_reject_examples
-    powHigh_bound powHigh_exact
-    convert_wf convert_zero convert_err convert_exact_if_fits set_str_spec
-    withinUnit_iff getOk_iff finish_round_le roundUp_value
-    get_digits_integer_exact
+    powHigh_bound convert_zero convert_err set_str_spec
 """.split()]
 PINS = [("mpf/set_str.c", None), ("mpf/get_str.c", None), ("gmp-impl.h", "MPF_SIGNIFICANT_DIGITS")]
 TRUSTED = ["hand-written model lean/Mpir/Model/MpfStr.lean of mpf_set_str / mpf_get_str (accepted syntax statement by statement; conversion at value "
@@ -283,6 +279,12 @@ def gen_get(rng, tier):
                     e = rng.choice([0, 1, -1, 2, -2, 3, n, n + 1, prec + 2, prec + 3, rng.randrange(-8, 12), 1000, -1000, 1 << 20, -(1 << 20), 1 << 40, -(1 << 40)])
                     for nd in rng.sample(nds, 2) + [0]:
                         yield from get_lines(rng, base, nd, prec, rng.random() < 0.4, e, l)
+                # ---- n near the maximum with small magnitudes: the truncated squarings of mpn_pow_1_highpart are amplified by the
+                #      exponent; with one guard limb (before the repair of get_str.c) the last digits were off by several units
+                for ex in [-0x20, -0x40, -0x80, -0x100, -0x400, -0x1000, -0x10000, -(1 << 20), -(1 << 30), -(1 << 40), 0x40, 0x1000, 1 << 20, 1 << 40]:
+                    n = prec + 1
+                    l = [rng.getrandbits(64) for _ in range(n)]; l[-1] |= 1
+                    yield from get_lines(rng, base, md - rng.choice([0, 0, 1, 2]), prec, rng.random() < 0.3, ex, l, rt=False)
             yield from get_lines(rng, base, rng.choice(nds), prec, False, 0, [])           # zero
             yield from get_lines(rng, base, 0, prec, False, 0, [])
         # fractions with few digits (0.5, 0.125, 0.1 in base 10 is not exact but 1/2^k is), and 1/3-like values
